@@ -50,7 +50,7 @@ class Sub:
                 pass
 
 
-def build_factory(nsubs):
+def build_factory(nsubs, auto=False):
     common.bind_repo()
     from proxy.core.event import EventQueue, EventDispatcher, eventNames
     import threading
@@ -121,6 +121,16 @@ def build_factory(nsubs):
                     subs[s].drain()
                     subs[s].broken = True
                     subs[s].close()
+            if auto and ok:
+                # automatic mode: the dispatcher handles everything queued right after every operation
+                while not q.empty():
+                    qlog.pop(0)
+                    ok = run_one()
+                    if not ok:
+                        break
+                if not ok:
+                    break
+                continue
             elif kind == 'run':
                 # the dispatcher handles ONE queued event now (the others stay queued)
                 if not q.empty():
@@ -155,7 +165,11 @@ def build_factory(nsubs):
             sb = subs.get(s)
             key.append((s, model.get(s, {}).get('status'), bool(sb and sb.stalled), bool(sb and sb.broken),
                         bool(sb and sb.stalled and not sb.broken and sb.rx.poll()), s in disp.subscribers))
-        key = (tuple(key), len(old) > 0, tuple(qlog))
+        # every other attribute of the dispatcher, generically (a refactoring that adds hidden state --
+        # e.g. a remembered list of broken ids -- must not be merged away)
+        extra = tuple(sorted((k, repr(v)) for k, v in vars(disp).items()
+                             if k not in ('shutdown', 'event_queue', 'subscribers')))
+        key = (tuple(key), len(old) > 0, tuple(qlog), extra)
         for sb in allsubs:
             sb.close()
         for c in list(disp.subscribers.values()):
@@ -167,8 +181,8 @@ def build_factory(nsubs):
     return build
 
 
-def alphabet(nsubs):
-    ops = [('pub',), ('unsub', 'ghost'), ('run',)]
+def alphabet(nsubs, auto=False):
+    ops = [('pub',), ('unsub', 'ghost')] + ([] if auto else [('run',)])
     for i in range(nsubs):
         s = 's%d' % i
         ops += [('sub', s), ('unsub', s), ('stall', s), ('break', s)]
@@ -178,10 +192,13 @@ def alphabet(nsubs):
 def run(tier):
     rep = common.Report(PROP, tier)
     cfgs = [(2, 5), (3, 4)] if tier == 'quick' else [(2, 7), (3, 5)]
-    for nsubs, depth in cfgs:
-        r = seqmc.bfs(alphabet(nsubs), build_factory(nsubs), depth)
+    # (subscribers, depth, automatic dispatch): explicit dispatch explores what is still queued when a
+    # channel breaks; automatic dispatch reaches longer histories (evict, re-subscribe, publish again)
+    cfgs = [(n, d, False) for n, d in cfgs] + ([(2, 7, True), (3, 5, True)] if tier == 'quick' else [(2, 9, True), (3, 7, True)])
+    for nsubs, depth, auto in cfgs:
+        r = seqmc.bfs(alphabet(nsubs, auto), build_factory(nsubs, auto), depth)
         rep.add(states=r['states'], transitions=r['transitions'], traces_validated_against_impl=r['transitions'])
-        rep.add(**{'depth_%dsubs' % nsubs: depth})
+        rep.add(**{'depth_%dsubs_%s' % (nsubs, 'auto' if auto else 'manual'): depth})
         seen = set()
         for hist, v in r['violations']:
             feats = {'symptom': v['symptom'], 'has_break': any(o[0] == 'break' for o in hist),
@@ -192,7 +209,7 @@ def run(tier):
             if k in seen:
                 continue
             seen.add(k)
-            rep.violation(feats, {'history': [list(o) for o in hist], 'nsubs': nsubs, 'detail': v['detail']})
+            rep.violation(feats, {'history': [list(o) for o in hist], 'nsubs': nsubs, 'auto': auto, 'detail': v['detail']})
     rep.add(rule='BFS over all histories up to the stated depth over {publish, unsubscribe(unknown)} + per subscriber '
                  '{subscribe, unsubscribe, stall (stop reading), break (close its ends)}; canonical-state merging on '
                  '(per-subscriber status, stalled, broken, unread data pending, known to the dispatcher)')
@@ -205,7 +222,7 @@ def replay(path):
     import json
     body = json.load(open(path))
     hist = tuple(tuple(o) for o in body['replay']['history'])
-    key, viol, _ = build_factory(body['replay']['nsubs'])(hist)
+    key, viol, _ = build_factory(body['replay']['nsubs'], body['replay'].get('auto', False))(hist)
     print('history:', hist)
     print('violations:', viol)
     return 1 if viol else 0
